@@ -90,7 +90,13 @@ def component_suite(names, stats, tier=None, reps=None, want_jac=True, label="co
                         c = component_case(name, rng, nx, ny, sym)
                         dis, info = run_component_case(c, want_jac=want_jac and sp["jac"] and name not in value_only)
                     except DriverError as e:
+                        if "timed out" in str(e) or "not built" in str(e):
+                            raise
                         dis = [dict(kind="driver-error", component=name, size=(nx, ny, sym), detail=str(e))]
+                        info = dict(nontrivial=False, hash=case_hash(name, nx, ny, sym, rep), n_in=0, n_out=0)
+                    except Exception as e:      # the real component raised on a generated (admissible) case
+                        dis = [dict(kind="real-code-exception", component=name, size=(nx, ny, sym),
+                                    detail="%s: %s" % (type(e).__name__, str(e)[:300]))]
                         info = dict(nontrivial=False, hash=case_hash(name, nx, ny, sym, rep), n_in=0, n_out=0)
                     stats.count("%s:%s" % (label, name), info["hash"], info["nontrivial"],
                                 ("size=%dx%d" % (nx, ny), "symmetry=%s" % sym))
@@ -155,7 +161,13 @@ def aero_pipeline_suite(stats, tier=None, n=None, label="pipeline:AeroPoint"):
     for k in range(n):
         rng = core.rng_for("aero_pipeline", k)
         surfaces, flow, rotational = aero_case(rng, tier)
-        prob = pipelines.run_aero_point(surfaces, flow, rotational=rotational)
+        try:
+            prob = pipelines.run_aero_point(surfaces, flow, rotational=rotational)
+        except Exception as e:
+            stats.disagreements.append(dict(kind="real-code-exception", component="AeroPoint", size=[s["mesh"].shape[:2] for s in surfaces],
+                                            detail="%s: %s" % (type(e).__name__, str(e)[:300]), seed_keys=["aero_pipeline", k]))
+            stats.count(label, case_hash("aero-exc", k), False)
+            continue
         real = pipelines.aero_outputs(prob, surfaces)
         mod = model_vlm_states(surfaces, flow, rotational)
         real_forces = np.concatenate([real[s["name"]]["sec_forces"].reshape(-1, 3) for s in surfaces])
